@@ -40,45 +40,87 @@ def write_script(path, segments, fmt):
                 f.write(fmt(op) + "\n")
 
 
-def run_replayer(exe, args, trace, timeout=600, env=None):
-    """Runs a replayer; if it dies the crash is appended to the trace as an event (which no spec action admits)."""
+def _script_segments(script):
+    segs = []
+    with open(script) as f:
+        for line in f:
+            if line.startswith("reset"):
+                segs.append([])
+            elif segs:
+                segs[-1].append(line.rstrip("\n"))
+    return segs
+
+
+def run_replayer(exe, args, trace, timeout=900, env=None, script=None):
+    """Runs a replayer.  If it dies (signal, watchdog, sanitizer abort) the crash is recorded in the trace as an event
+    (which no spec action admits) and a new process continues with the segment after the one that died, so one
+    crash does not hide the rest of the script.  Returns (last exit code, collected stderr)."""
     e = dict(os.environ)
-    e["ASAN_OPTIONS"] = "detect_leaks=1:abort_on_error=0:exitcode=66:allocator_may_return_null=1"
+    e["ASAN_OPTIONS"] = "detect_leaks=1:abort_on_error=0:exitcode=66:allocator_may_return_null=1:detect_stack_use_after_return=1"
     e["UBSAN_OPTIONS"] = "print_stacktrace=1:halt_on_error=1:exitcode=67"
     e["TSAN_OPTIONS"] = "exitcode=68:halt_on_error=0"
     if env: e.update(env)
-    try:
-        p = subprocess.run([exe] + [str(a) for a in args], capture_output=True, text=True, timeout=timeout, env=e,
-                           errors="replace")
-        rc, err = p.returncode, p.stderr
-    except subprocess.TimeoutExpired as ex:
-        rc, err = -99, "replayer timed out after %ss" % timeout
-    if rc != 0:
+    args = [str(a) for a in args]
+    allerr = []
+    worst = 0
+    cur_script = args[0] if script is None else script
+    all_segs = None
+    done_segs = 0
+    for attempt in range(4):
+        a2 = [cur_script] + args[1:]
+        if attempt > 0:
+            e["VH_APPEND"] = "1"
+        try:
+            p = subprocess.run([exe] + a2, capture_output=True, text=True, timeout=timeout, env=e, errors="replace")
+            rc, err = p.returncode, p.stderr
+        except subprocess.TimeoutExpired:
+            rc, err = -99, "replayer timed out after %ss" % timeout
+        if rc == 0:
+            break
+        worst = rc
+        allerr.append(err[-3000:])
         # the child's own handlers log crash/timeout for signals; sanitizer exits and hard kills are logged here
         last = ""
+        nres = 0
         if os.path.exists(trace):
             with open(trace, "rb") as f:
-                f.seek(0, 2); sz = f.tell(); f.seek(max(0, sz - 4000))
-                tail = f.read().decode(errors="replace").strip().split("\n")
-                last = tail[-1] if tail else ""
+                data = f.read()
+            nres = data.count(b'{"op":"reset"')
+            tail = data[-4000:].decode(errors="replace").strip().split("\n")
+            last = tail[-1] if tail else ""
         if '"op":"crash"' not in last and '"op":"timeout"' not in last:
+            where = ""
+            try:
+                where = json.loads(last).get("op", "")
+            except Exception:
+                pass
             with open(trace, "a") as f:
                 if last and not last.endswith("}"):
                     f.write("\n")
-                f.write(json.dumps({"op": "crash", "sig": rc, "seg": 0, "step": 0, "where": "exit"}) + "\n")
-    return rc, err
+                f.write(json.dumps({"op": "crash", "sig": rc, "seg": nres, "step": 0, "where": "after:" + where}) + "\n")
+        if all_segs is None:
+            all_segs = _script_segments(args[0])
+        done_segs = nres           # segments started so far (the last one died)
+        if done_segs >= len(all_segs) or rc == -99:
+            break
+        cur_script = args[0] + ".rest"
+        with open(cur_script, "w") as f:
+            for seg in all_segs[done_segs:]:
+                f.write("reset\n")
+                for l in seg: f.write(l + "\n")
+    return worst, "\n".join(allerr)
 
 
 def segment_of(trace, lineno):
-    """Events of the segment containing 1-based trace line `lineno` (from its reset up to that line)."""
-    seg = []
+    """(index, events) of the segment containing 1-based trace line `lineno` (from its reset up to that line)."""
+    seg = []; idx = -1
     with open(trace) as f:
         for i, line in enumerate(f, 1):
             if i > lineno: break
-            if '"op":"reset"' in line.replace(" ", ""):
-                seg = []
+            if line.startswith('{"op":"reset"'):
+                seg = []; idx += 1
             seg.append(line.strip())
-    return seg
+    return idx, seg
 
 
 def validate_sharded(module, cfg, trace, shard_lines=120000, jobs=8, timeout=1800, heap="4g"):
@@ -139,6 +181,9 @@ def replay_and_validate(chk, variant, script, tagname, fmt_desc="", recheck=True
     results = validate_sharded(variant.trace_module, cfg, trace)
     nrej = 0
     for shard, off, res in results:
+        if res.get("conform"):
+            sc = chk.parts.setdefault("shape_conformance", dict(equal=0, compared=0))
+            sc["equal"] += res["conform"][0]; sc["compared"] += res["conform"][1]
         if res["infra"]:
             chk.infra.append("trace validation %s/%s: %s" % (tagname, variant.tag, res["infra"]))
             continue
@@ -149,10 +194,12 @@ def replay_and_validate(chk, variant, script, tagname, fmt_desc="", recheck=True
                 fr = chk.parts.setdefault("foreign_rejects", [])
                 if len(fr) < 5: fr.append("%s/%s: %s" % (tagname, variant.tag, txt[:200]))
                 continue
-            seg = segment_of(shard, l) if l > 0 else []
+            segidx, seg = segment_of(shard, l) if l > 0 else (-1, [])
+            if segidx >= 0:
+                segidx += count_resets(trace, upto=off)
             confirmed = True
-            if recheck and seg and nrej <= 5:
-                confirmed = recheck_segment(chk, variant, seg, tagname)
+            if recheck and seg and nrej <= 5 and segidx >= 0:
+                confirmed = recheck_segment(chk, variant, script, segidx, tagname)
             if not confirmed:
                 chk.infra.append("rejection not reproduced in isolation (%s/%s line %d): %s" % (tagname, variant.tag, l, txt[:300]))
                 continue
@@ -174,15 +221,16 @@ def replay_and_validate(chk, variant, script, tagname, fmt_desc="", recheck=True
         chk.sample(dict(variant="%s/%s" % (tagname, variant.tag), first_events=[h[:300] for h in head if h]))
     for shard, off, res in results:
         if shard != trace and os.path.exists(shard): os.remove(shard)
-    if nrej == 0:
+    if nrej == 0 and not any(r[2]["infra"] for r in results):
         os.remove(trace)
     return dict(events=nev, rejected=nrej)
 
 
-def count_resets(trace):
+def count_resets(trace, upto=None):
     n = 0
     with open(trace) as f:
-        for line in f:
+        for i, line in enumerate(f):
+            if upto is not None and i >= upto: break
             if line.startswith('{"op":"reset"'): n += 1
     return n
 
@@ -206,31 +254,28 @@ def seg_sig(seg):
     return hashlib.sha1(";".join(ops).encode()).hexdigest()[:10] + ":" + (ops[-1] if ops else "")
 
 
-def recheck_segment(chk, variant, seg_events, tagname):
-    """Re-execute one failing segment alone; True if TLC rejects again."""
+def recheck_segment(chk, variant, script, segidx, tagname):
+    """Re-execute one failing segment of the script alone; True if TLC rejects again."""
     wd = workdir("recheck")
-    script = os.path.join(wd, "%s-%s.script" % (tagname, variant.tag))
-    with open(script, "w") as f:
-        for line in seg_events:
-            try:
-                e = json.loads(line)
-            except Exception:
-                continue
-            if e.get("op") in ("crash", "timeout", "free"): continue
-            if e.get("op") == "reset":
-                f.write("reset\n"); continue
-            if e.get("inj", 0) > 1: continue           # retries of the same step are regenerated by the replayer
-            e["_h"] = variant.harness
-            f.write(script_line(e) + "\n")
+    segs = _script_segments(script)
+    if segidx >= len(segs):
+        return True
+    one = os.path.join(wd, "%s-%s-%d.script" % (tagname, variant.tag, segidx))
+    with open(one, "w") as f:
+        f.write("reset\n")
+        for l in segs[segidx]: f.write(l + "\n")
     exe = vf.build(variant.harness, mode=variant.mode, wraps=variant.wraps, defines=variant.defines)
-    trace = os.path.join(wd, "%s-%s.ndjson" % (tagname, variant.tag))
+    trace = os.path.join(wd, "%s-%s-%d.ndjson" % (tagname, variant.tag, segidx))
     if os.path.exists(trace): os.remove(trace)
-    run_replayer(exe, variant.args_fn(script, trace), trace, env=variant.env)
-    cfg = os.path.join(wd, "%s-%s.cfg" % (tagname, variant.tag))
+    run_replayer(exe, variant.args_fn(one, trace), trace, env=variant.env)
+    cfg = os.path.join(wd, "%s-%s-%d.cfg" % (tagname, variant.tag, segidx))
     vf.write_cfg(cfg, constants=variant.trace_constants, init="TInit", next_="TNext", postcondition="Consumed",
                  subst=variant.subst)
     if not os.path.exists(trace): return True
     res = vf.validate(variant.trace_module, cfg, trace)
+    for f in (one, trace, cfg):
+        try: os.remove(f)
+        except OSError: pass
     return bool(res["rejects"]) or (res["infra"] is None and not res["accepted"])
 
 
@@ -287,12 +332,17 @@ def run_container(chk, tier, seed, desc, owned, flagsets=("",), modes=("plain",)
     def one(arg):
         n, m = arg
         tag = "%s-%s" % (desc.NAME, m["tag"])
-        r, edges = model_run(chk, tag, desc.MODULE, m["consts"], workers=m.get("workers", 2),
+        r, edges = model_run(chk, tag, m.get("module", desc.MODULE), m["consts"], workers=m.get("workers", 2),
                              invariants=m.get("invariants", ()), properties=m.get("properties", ()),
-                             subst=m.get("subst"), heap=m.get("heap", "4g"), view=m.get("view", "View"))
+                             subst=m.get("subst"), heap=m.get("heap", "4g"), view=m.get("view", "View"),
+                             dump=not m.get("mc_only", False))
+        if m.get("mc_only"):
+            return
         if not r.ok or not edges:
             return
         segs, st = vf.tour(edges, maxseg=m.get("maxseg", 400))
+        if m.get("prelude"):
+            segs = m["prelude"](segs)
         chk.add_cases(0, distinct_n=st["edges"])
         chk.parts.setdefault("tours", {})[tag] = st
         if st["uncovered"]:
